@@ -454,6 +454,7 @@ def gen_tree(rnd, big=False):
     dirs = [""]
     names = set()
     files = []
+    others = []        # symbolic links, devices, fifos and hard link records: a hard link may name any of them
 
     def fresh(parent, n=None):
         for _ in range(50):
@@ -470,7 +471,7 @@ def gen_tree(rnd, big=False):
         k = rnd.random()
         kind = ("dir" if k < 0.2 else "file" if k < 0.55 else "slink" if k < 0.7 else "hard" if k < 0.8
                 else "chr" if k < 0.85 else "blk" if k < 0.9 else "fifo" if k < 0.95 else "sparse")
-        if kind == "hard" and not files:
+        if kind == "hard" and not files and not others:
             kind = "file"
         name = fresh(parent)
         if name is None:
@@ -503,9 +504,13 @@ def gen_tree(rnd, big=False):
             a["link"] = rnd.choice([rcomp(rnd, rnd.choice([1, 10, 99, 100, 101, 250])), "../" + rcomp(rnd, 5), "/abs/" + rcomp(rnd, 7),
                                     "./a/../b", "a//b", rnd.choice(sorted(names))])
         elif kind == "hard":
-            a["link"] = rnd.choice(files)
+            # the second name of ANY inode that is not a directory: regular file, symbolic link, device, fifo,
+            # or (named through) another hard link record
+            a["link"] = rnd.choice(others) if others and (not files or rnd.random() < 0.45) else rnd.choice(files)
         elif kind in ("chr", "blk"):
             a["dev"] = rnd.choice([(1, 3), (8, 0), (0, 0), (4095, 255), (259, 1048575), (12, 256), (4095, 1048575)])
+        if kind in ("slink", "hard", "chr", "blk", "fifo"):
+            others.append(name)
         ents.append((name, kind, a))
     return ents
 
@@ -671,7 +676,7 @@ def gnu_tar_archive(rnd, ents, workdir, tag, fmt, sparse_ver=None):
             elif kind == "slink":
                 os.symlink(a["link"], p)
             elif kind == "hard":
-                os.link(os.path.join(root, a["link"]), p)
+                os.link(os.path.join(root, a["link"]), p, follow_symlinks=False)
             elif kind == "fifo":
                 os.mkfifo(p)
             elif kind in ("chr", "blk"):
@@ -715,6 +720,15 @@ def gen_case(rnd, workdir, idx, tier):
                 if below and max(below) > i:
                     e = ents.pop(i)
                     ents.insert(rnd.randint(min(below), max(below)), e)
+    if rnd.random() < 0.35:
+        # hard link records in front of the entry they name (and so possibly in front of their own directory's entry)
+        for name in [n for n, kind, a in ents if kind == "hard"]:
+            if rnd.random() < 0.6:
+                i = next(k for k, e in enumerate(ents) if e[0] == name)
+                j = next((k for k, e in enumerate(ents) if e[0] == ents[i][2]["link"]), None)
+                if j is not None and j < i:
+                    e = ents.pop(i)
+                    ents.insert(rnd.randint(0, j), e)
     opts = {}
     k = rnd.random()
     prefix = ""
